@@ -50,7 +50,8 @@ CATALOGUE = {
         "T.extradata-other-hash", "T.name-digest-wrong", "T.name-digest-other-alg", "T.name-prefix-ne-namealg",
         "T.sig-other-key", "T.sig-other-certinfo", "T.cert-v1", "T.subject-nonempty", "T.san-missing",
         "T.san-no-manufacturer", "T.san-no-model", "T.san-no-version", "T.vendor-unknown", "T.eku-missing",
-        "T.eku-other-first", "T.bc-missing", "T.bc-ca-true", "T.exponent-zero-key-e-ne-default"],
+        "T.eku-other-first", "T.bc-missing", "T.bc-ca-true", "T.exponent-zero-key-e-ne-default",
+        "T.namealg-unmapped-sm3", "T.namealg-unmapped-null", "T.curve-unmapped-p224", "T.curve-unmapped-none", "T.curve-unmapped-bn638", "T.curve-unmapped-p192"],
     "apple": ["AP.x5c-missing", "AP.nonce-ext-missing", "AP.nonce-other-authdata", "AP.nonce-other-cdj",
               "AP.certkey-ne-credkey"],
     "android-key": [
@@ -475,7 +476,7 @@ def _tpm_described_key(b: _Build):
 
 
 def _tpm_rsa_pub_area(b: _Build, pub) -> bytes:
-    if b.has("T.unique-ne-xy") or b.has("T.curve-ne"):
+    if b.has("T.unique-ne-xy") or b.has("T.curve-ne") or any(b.has(f) for f in _UNMAPPED_CURVES):
         raise NotApplicable("ECC pubArea fault with an RSA key")
     shown = _other_key(b.cred.priv).public_key() if b.has("T.unique-ne-modulus") else pub
     n, e = shown.public_numbers().n, pub.public_numbers().e
@@ -487,8 +488,14 @@ def _tpm_rsa_pub_area(b: _Build, pub) -> bytes:
             raise NotApplicable("needs a credential key whose exponent is not 2^16+1")
         exponent = 0                                   # "0" means 65537, which is not this key's exponent
     size = b.cred.pad_to or (n.bit_length() + 7) // 8
-    return tpm.encode_pub_area("rsa", name_alg=b.req.tpm_name_alg, key_bits=pub.key_size, exponent=exponent,
+    return tpm.encode_pub_area("rsa", name_alg=_tpm_name_alg(b), key_bits=pub.key_size, exponent=exponent,
                                modulus=n.to_bytes(size, "big"))
+
+
+# TPM_ECC_CURVE identifiers the TPM parser knows but that have no COSE curve: the pubArea then
+# cannot agree with any credential key
+_UNMAPPED_CURVES = {"T.curve-unmapped-none": 0x0000, "T.curve-unmapped-p192": 0x0001, "T.curve-unmapped-p224": 0x0002,
+                    "T.curve-unmapped-bn638": 0x0011}
 
 
 def _tpm_ecc_pub_area(b: _Build, pub) -> bytes:
@@ -498,9 +505,12 @@ def _tpm_ecc_pub_area(b: _Build, pub) -> bytes:
     curve_id = tpm.CURVE_ID[pub.curve.name]
     if b.has("T.curve-ne"):
         curve_id = tpm.TPM_ECC_NIST_P384 if curve_id == tpm.TPM_ECC_NIST_P256 else tpm.TPM_ECC_NIST_P256
+    for f, cid in _UNMAPPED_CURVES.items():
+        if b.has(f):
+            curve_id = cid
     size = b.cred.pad_to or (pub.curve.key_size + 7) // 8
     numbers = shown.public_numbers()
-    return tpm.encode_pub_area("ecc", name_alg=b.req.tpm_name_alg, curve_id=curve_id,
+    return tpm.encode_pub_area("ecc", name_alg=_tpm_name_alg(b), curve_id=curve_id,
                                x=numbers.x.to_bytes(size, "big"), y=numbers.y.to_bytes(size, "big"))
 
 
@@ -513,8 +523,21 @@ def _tpm_pub_area(b: _Build) -> bytes:
     raise NotApplicable("TPM attestation certifies RSA or ECC keys only")
 
 
+# TPM_ALG identifiers the TPM parser knows but that name no hash the library can compute
+_UNMAPPED_NAME_ALGS = {"T.namealg-unmapped-sm3": 0x0012, "T.namealg-unmapped-null": 0x0010}
+
+
+def _tpm_name_alg(b: _Build) -> int:
+    for f, a in _UNMAPPED_NAME_ALGS.items():
+        if b.has(f):
+            return a
+    return b.req.tpm_name_alg
+
+
 def _tpm_attested_name(b: _Build, pub_area: bytes) -> bytes:
     name_alg = b.req.tpm_name_alg
+    if _tpm_name_alg(b) != name_alg:
+        return _tpm_name_alg(b).to_bytes(2, "big") + tpm.name_digest(pub_area, name_alg)
     prefix = name_alg.to_bytes(2, "big")
     if b.has("T.name-digest-wrong"):
         return prefix + tpm.name_digest(b"some other object" + pub_area, name_alg)
